@@ -9,10 +9,13 @@ func init() {
 			{Pkg: wtxmgrPkg, Fn: "ZzC14Sort2", Tiers: "qt", Reach: []string{"c14-end", "c14-has-edge", "c14-multi-edge"}, Bound: "all spend DAGs on 2 transactions with <=2 inputs each x every order of both map ranges"},
 			{Pkg: wtxmgrPkg, Fn: "ZzC14Sort3", Tiers: "qt", Reach: []string{"c14-end", "c14-has-edge", "c14-multi-edge"}, Bound: "all spend DAGs on 3 transactions (<=2 inputs each: external, any earlier tx, second edge to the same parent) x every order of both map ranges"},
 			{Pkg: wtxmgrPkg, Fn: "ZzC14Store2", Tiers: "qt", Reach: []string{"c14-end", "c14-has-edge", "c14-multi-edge", "c14-parent-without-credit"}, Bound: "the same DAGs on 2 transactions recorded as unconfirmed transactions of a real Store over memdb, each with none / the first / both outputs credited to the wallet, then Store.UnminedTxs under every order of every map range"},
+			{Pkg: wtxmgrPkg, Fn: "ZzC14Shapes", Tiers: "qt", Reach: []string{"c14-end", "c14-has-edge"}, Bound: "six fixed graphs on 4 and 5 transactions with several transactions ready at once and parents releasing up to three children (two roots with children on one of them, a star, a double diamond, a two-level tree) x every order of both map ranges"},
+			{Pkg: wtxmgrPkg, Fn: "ZzC14StoreConcurrent", Tiers: "qt", Sched: true, Reach: []string{"c14-end"}, Bound: "Store.UnminedTxs read in its own transaction while a writer is between recording a child transaction and committing (every interleaving with at most 2 preemptions); afterwards the list is complete and ordered"},
+			{Pkg: wtxmgrPkg, Fn: "ZzC14ShapesAll", Tiers: "t", Reach: []string{"c14-end"}, Bound: "the same plus two roots with two children each (6 transactions, 518400 orders)"},
 			{Pkg: wtxmgrPkg, Fn: "ZzC14Store3", Tiers: "t", Reach: []string{"c14-end", "c14-multi-edge", "c14-parent-without-credit"}, Bound: "Store.UnminedTxs, DAGs on 3 transactions x credited-output choices x map orders (209952 paths)"},
 			{Pkg: wtxmgrPkg, Fn: "ZzC14Sort4", Tiers: "t", Reach: []string{"c14-end", "c14-multi-edge"}, Bound: "all spend DAGs on 4 transactions x every order of both map ranges (331776 paths)"},
 		},
-		Outside: "more than 4 transactions, more than 2 inputs per transaction; here graph shapes and map orders are enumerated exhaustively (structural forks), no data is symbolic",
+		Outside: "all graphs on more than 4 transactions (beyond the listed fixed shapes), more than 2 inputs per transaction; here graph shapes and map orders are enumerated exhaustively (structural forks), no data is symbolic",
 	})
 	reg(&propDef{
 		ID: "C01",
@@ -71,6 +74,7 @@ func init() {
 			{Pkg: wtxmgrPkg, Fn: "ZzC12MinedL2", Tiers: "qt", Reach: []string{"c12-end", "leased", "lock-conflict", "lock-extended", "unlock-conflict", "unlocked", "swept", "confirmed-spend", "lock-unknown"}, Bound: "A confirmed with two credits, B spends A:0; 2 events from {see/mine/rollback/abandon, lock(op,id,duration in {0,1ns,1s,10min}), unlock(op,id), clock advance, sweep, restart}; clock seconds and nanoseconds symbolic"},
 			{Pkg: wtxmgrPkg, Fn: "ZzC12LeasedP1L2", Tiers: "qt", Reach: []string{"c12-end", "leased", "confirmed-spend", "lock-conflict", "unlocked"}, Bound: "A confirmed, A:0 leased to id1 for ten minutes (fixed preamble), then 2 free events (e.g. an unconfirmed spend of the leased output and its removal, a confirmed spend, a second identifier)"},
 			{Pkg: wtxmgrPkg, Fn: "ZzC12UnminedL2", Tiers: "qt", Reach: []string{"c12-end", "leased"}, Bound: "A UNCONFIRMED with two credits, 2 events (a lease on an unconfirmed credit)"},
+			{Pkg: wtxmgrPkg, Fn: "ZzC12ConfirmedConflict", Tiers: "qt", Reach: []string{"c12-end", "conflicting-unconfirmed-spender"}, Bound: "A confirmed with two credits, A:0 leased, optionally an unconfirmed spender B of A:0 known, then a DIFFERENT transaction spending A:0 confirms: no lease listed any more; after the block is disconnected the output is available (symbolic clock, minConf, amounts)"},
 			{Pkg: wtxmgrPkg, Fn: "ZzC12Tick", Tiers: "qt", Reach: []string{"c12-end"}, Bound: "one leased confirmed output (lease of 1 s or 10 min); Balance computed while the clock moves from t1 to t2 >= t1 (both symbolic, possibly across the expiry) after 0..3 clock readings; the answer must be the answer for t1 or for t2"},
 			{Pkg: walletPkg, Fn: "ZzC12WalletSmall", Tiers: "qt", Reach: []string{"c12w-end", "observed-while-leased", "observed-after-expiry", "other-id-refused", "released"}, Bound: "wallet level (Wallet.LeaseOutput / ReleaseOutput / CalculateBalance-equivalent / ListUnspent) on one funded wallet with the store's REAL clock: time.Now returns arbitrary non-decreasing instants (symbolic), lease of ten minutes, then another identifier tries to take it or the owner releases it; observations are asserted when the instants read before/after them put them certainly before or certainly after the expiry"},
 			{Pkg: walletPkg, Fn: "ZzC12Wallet", Tiers: "t", Reach: []string{"c12w-end", "observed-while-leased", "observed-after-expiry"}, Bound: "the same with 1 s and 10 min leases and four continuations (foreign lease, foreign release, release, extension + ListLeasedOutputs)"},
@@ -105,7 +109,7 @@ func init() {
 			{Pkg: migPkg, Fn: "ZzC19N2R2", Tiers: "qt", Reach: []string{"c19-end", "second-upgrade-with-the-same-table", "upgraded"}, Bound: "table length 2, TWO upgrades with the same manager and table, each from its own symbolic stored version (a table damaged by the first call is noticed by the second); the table must still hold every declared version"},
 			{Pkg: migPkg, Fn: "ZzC19N3R2", Tiers: "t", Reach: []string{"c19-end", "second-upgrade-with-the-same-table"}, Bound: "table length 3, two upgrades"},
 			{Pkg: walletPkg, Fn: "ZzC19WalletOpen", Tiers: "qt", Reach: []string{"c19w-end", "newer", "fault-hit", "open-failed", "opened", "failed-with-pending-wtxmgr-migration"}, Bound: "wallet.Open (OpenWithRetry: both migration managers, both Opens, one database transaction) on a created wallet with one recorded transaction; stored versions of BOTH namespaces symbolic uint32 (waddrmgr >= 5: older layouts are not synthesised), optional failing write at a symbolic position: a failed Open leaves the whole database dump unchanged, a successful one records both latest versions"},
-			{Pkg: wtxmgrPkg, Fn: "ZzC19Store", Tiers: "qt", Reach: []string{"c19-end", "newer", "current", "upgraded", "fault-hit"}, Bound: "real wtxmgr.MigrationManager and Open over memdb with history present; stored version symbolic uint32; optional write fault at symbolic position inside the upgrade transaction"},
+			{Pkg: wtxmgrPkg, Fn: "ZzC19Store", Tiers: "qt", Reach: []string{"c19-end", "newer", "current", "upgraded", "fault-hit", "second-upgrade-same-manager"}, Bound: "real wtxmgr.MigrationManager and Open over memdb with history present; stored version symbolic uint32; optional write fault at symbolic position inside the upgrade transaction; after a real upgrade a transaction is recorded and a second upgrade through the same manager value must be a no-op"},
 		},
 		Assume:  []string{"memdb for bbolt (wtxmgr part)", "waddrmgr's migrations 6..8 run (through wallet.Open) on a database of the current layout stamped with an older version; layouts older than version 5 are not synthesised"},
 		Outside: "tables longer than 4; waddrmgr database layouts older than version 5; more than two upgrades with one table",
@@ -166,6 +170,8 @@ func init() {
 			{Pkg: chainPkg, Fn: "ZzC18NeutrinoK3", Tiers: "qt", NoNative: true, Sched: true, Reach: []string{"c18-end", "producer-finished-without-consumer"}, Bound: "the same for the neutrino client (real NeutrinoClient.notificationHandler goroutine)"},
 			{Pkg: chainPkg, Fn: "ZzC18BtcdBurst", Tiers: "qt", NoNative: true, Sched: true, Reach: []string{"c18-end", "more-than-32-pending"}, Bound: "btcd client handler, one schedule (no preemptive switches): send 5, receive 3, send 36 (38 pending), receive 10, send 20, drain: 61 notifications in order"},
 			{Pkg: chainPkg, Fn: "ZzC18NeutrinoBurst", Tiers: "qt", NoNative: true, Sched: true, Reach: []string{"c18-end", "more-than-32-pending"}, Bound: "neutrino client handler, the same burst pattern"},
+			{Pkg: chainPkg, Fn: "ZzC18BtcdStopBacklog", Tiers: "qt", NoNative: true, Sched: true, Reach: []string{"c18-end", "stop-with-backlog"}, Bound: "btcd client handler: 3 notifications queued, nobody reading, then Stop: the handler ends (its wait group is released, its output channel closed)"},
+			{Pkg: chainPkg, Fn: "ZzC18NeutrinoStopBacklog", Tiers: "qt", NoNative: true, Sched: true, Reach: []string{"c18-end", "stop-with-backlog"}, Bound: "the same for the neutrino client handler"},
 			{Pkg: chainPkg, Fn: "ZzC18K4B1", Tiers: "t", Sched: true, Reach: []string{"c18-end"}, Bound: "4 items, buffer 1"},
 			{Pkg: chainPkg, Fn: "ZzC18K4B2", Tiers: "t", Sched: true, Reach: []string{"c18-end"}, Bound: "4 items, buffer 2"},
 			{Pkg: chainPkg, Fn: "ZzC18K4B0Take2", Tiers: "t", Sched: true, Reach: []string{"c18-end"}, Bound: "4 items, buffer 0, consumer takes 2"},
@@ -240,6 +246,7 @@ func init() {
 			{Pkg: waddrmgrPkg, Fn: "ZzC05LockWatchOnlyAccount", Tiers: "qt", Reach: []string{"c05-end", "watch-only-account-loaded"}, Bound: "seeded manager holding an imported extended-public-key account with an issued address, then Lock"},
 			{Pkg: waddrmgrPkg, Fn: "ZzC05LockUntouchedScope", Tiers: "qt", Reach: []string{"c05-end", "imports-into-untouched-scope"}, Bound: "restart, unlock, private key and secret script imported into a key scope in which no account has been loaded in this session, then Lock"},
 			{Pkg: waddrmgrPkg, Fn: "ZzC05LockInvalidated", Tiers: "qt", Reach: []string{"c05-end", "account-cache-invalidated"}, Bound: "cached derivation, then the account dropped from the account cache (InvalidateAccountCache), then Lock"},
+			{Pkg: waddrmgrPkg, Fn: "ZzC05LongPassphrase", Tiers: "qt", Reach: []string{"c05-end", "guess-while-unlocked"}, Bound: "a 110-byte private passphrase; Unlock from locked and while already unlocked with a guess differing in one byte (symbolic non-zero mask) at position 0, 31, 32, 63, 64, 95, 96, 97 or 109"},
 			{Pkg: waddrmgrPkg, Fn: "ZzC05FailedUnlock", Tiers: "qt", Reach: []string{"c05-end"}, Bound: "Unlock with the right passphrase failing after the master and crypto keys were decrypted (damaged account key): locked and wiped afterwards"},
 			{Pkg: waddrmgrPkg, Fn: "ZzC05GuessWatchOnlyAccount", Tiers: "qt", Reach: []string{"c05-end", "right-passphrase", "wrong-passphrase", "watch-only-account-loaded"}, Bound: "symbolic 8-byte passphrase guess on a manager holding an imported watch-only account"},
 			{Pkg: waddrmgrPkg, Fn: "ZzC05GuessFresh", Tiers: "qt", Reach: []string{"c05-end", "right-passphrase", "wrong-passphrase"}, Bound: "Unlock with a fully symbolic 8-byte passphrase (solver decides equality with the real one)"},
@@ -348,7 +355,7 @@ func init() {
 	reg(&propDef{
 		ID: "C11",
 		Runs: []hrun{
-			{Pkg: bdbPkg, Fn: "ZzC11T2O1", Tiers: "qt", Sched: true, Witnesses: 12, Reach: []string{"c11-end", "committed", "aborted", "panicked", "empty-value", "view-failed", "view-panicked"}, Bound: "2 managed updates (committed, failed or panicking) of 1 operation each from {put top/nested, delete, delete nested bucket, sequence, incompatible put/create} over keys a,b,c with symbolic 2-byte, empty or nil values; full read-back (cursor both ways, Get, Seek, nested bucket, read-only writes) after each; finally a View that succeeds, fails or panics, then close (which waits for open transactions) and reopen"},
+			{Pkg: bdbPkg, Fn: "ZzC11T2O1", Tiers: "qt", Sched: true, Witnesses: 12, Reach: []string{"c11-end", "committed", "aborted", "panicked", "empty-value", "view-failed", "view-panicked", "top-level-deleted"}, Bound: "2 managed updates (committed, failed or panicking) of 1 operation each from {put top/nested, delete, delete nested bucket, sequence, incompatible put/create, create / look up + delete + look up a second top-level bucket} over keys a,b,c with symbolic 2-byte, empty or nil values; full read-back (cursor both ways, Get, Seek, nested bucket, read-only writes) after each; finally a View that succeeds, fails or panics, then close (which waits for open transactions) and reopen"},
 			{Pkg: bdbPkg, Fn: "ZzC11T1O2", Tiers: "qt", Sched: true, Witnesses: 12, Reach: []string{"c11-end", "committed", "aborted", "panicked"}, Bound: "1 update of 2 operations"},
 			{Pkg: bdbPkg, Fn: "ZzC11T2O2", Tiers: "t", Sched: true, Witnesses: 24, Reach: []string{"c11-end"}, Bound: "2 updates of 2 operations"},
 			{Pkg: bdbPkg, Fn: "ZzC11T3O1", Tiers: "t", Sched: true, Witnesses: 24, Reach: []string{"c11-end"}, Bound: "3 updates of 1 operation"},
